@@ -158,7 +158,10 @@ func (interp *Interpreter) cfg(root *node, sc *scope, importPath, pkgName string
 					n.typ = dest.typ
 				}
 			case binaryExpr, unaryExpr, parenExpr:
-				n.typ = n.anc.typ
+				if !isBoolAction(n.anc) {
+					// The operands of a comparison do not have the type of its result.
+					n.typ = n.anc.typ
+				}
 			}
 
 		case defineStmt:
@@ -1033,7 +1036,8 @@ func (interp *Interpreter) cfg(root *node, sc *scope, importPath, pkgName string
 				// Allocate a new location in frame, and store the result here.
 				n.findex = sc.add(n.typ)
 			}
-			if n.typ != nil && !n.typ.untyped {
+			if n.typ != nil && !n.typ.untyped && !isBoolAction(n) {
+				// The operands of a comparison do not take the type of its result.
 				fixUntyped(n, sc)
 			}
 
